@@ -125,7 +125,27 @@ func genOrigin(t *rapid.T, spec CORSSpec) (string, bool, string) {
 		}
 	}
 	bases = append(bases, spec.FuncSet...)
-	kind := rapid.IntRange(0, 11).Draw(t, "originkind")
+	kind := rapid.IntRange(0, 12).Draw(t, "originkind")
+	if kind == 12 && len(bases) > 0 {
+		// same length, one character replaced: a look-alike such as app-example.com for
+		// app.example.com (an entry is a literal, not a pattern)
+		e := rapid.SampledFrom(bases).Draw(t, "base")
+		var dots []int
+		for i := len("https://"); i < len(e); i++ {
+			if e[i] == '.' {
+				dots = append(dots, i)
+			}
+		}
+		k := rapid.IntRange(len("http://"), len(e)-1).Draw(t, "substpos")
+		if len(dots) > 0 && rapid.IntRange(0, 3).Draw(t, "substdot") > 0 {
+			k = rapid.SampledFrom(dots).Draw(t, "dotpos")
+		}
+		r := rapid.SampledFrom([]string{"-", "x", "0"}).Draw(t, "substchar")
+		if string(e[k]) == r {
+			r = "y"
+		}
+		return e[:k] + r + e[k+1:], true, "one_character_replaced"
+	}
 	if kind == 0 {
 		return "", false, "absent"
 	}
@@ -249,6 +269,14 @@ func genCORSCase(t *rapid.T, preflightHeavy bool) CORSCase {
 					} else {
 						h = rapid.SampledFrom(append([]string{"X-Other", "X-Csrf-Exempt", "X"}, corsHeaderPool...)).Draw(t, "reqheader") // "X": the shortest header list there is
 					}
+					switch rapid.IntRange(0, 11).Draw(t, "hdrderive") {
+					case 0: // an allowed name is not a prefix pattern ...
+						h += rapid.SampledFrom([]string{"-Extra", "s", "-"}).Draw(t, "hdrext")
+					case 1: // ... nor is a requested name one
+						if len(h) > 2 {
+							h = h[:rapid.IntRange(1, len(h)-1).Draw(t, "hdrcut")]
+						}
+					}
 					h = swapCase(h, rapid.IntRange(0, 3).Draw(t, "hdrcase"))
 					h = strings.Repeat(" ", rapid.IntRange(0, 1).Draw(t, "hdrsp1")) + h + strings.Repeat(" ", rapid.IntRange(0, 1).Draw(t, "hdrsp2"))
 					hs = append(hs, h)
@@ -354,6 +382,11 @@ func checkCORS(c CORSCase, property string) (vs []*Violation) {
 			cors.Container = ct
 		}
 		ct.Filter(cors.Filter)
+		// the variable the filter was taken from is reused for something else afterwards: the
+		// installed filter keeps the configuration it was installed with
+		cors.AllowedDomains, cors.AllowedDomainFunc = nil, nil
+		cors.AllowedHeaders, cors.AllowedMethods = []string{"*"}, []string{"GET", "POST", "PUT", "DELETE", "PATCH"}
+		cors.CookiesAllowed, cors.MaxAge, cors.ExposeHeaders = !spec.Cookies, 7, []string{"X-Reused"}
 	}}, recF, true)
 	defer harness.ResetGlobals()
 	if p2 != nil {
